@@ -30,7 +30,7 @@ Readings (weakest reasonable; documented in spec/Suppr.tla):
     by the manual: the declarative range accepts both.
 """
 import os, threading
-import vf, campaign
+import vf, campaign, difftree
 from checks import _suppr as S
 
 MALFORMED = ["(", "a[", "*a", "a{"]     # a pattern cannot *start* with an INI delimiter: `x = \\[` is not read as the string "[" (INI layer, C25/C39)
@@ -135,16 +135,22 @@ def main():
             f = S.write_suppr(os.path.join(da, "s%d.suppr" % k), s)
             r1 = S.abidiff(tool, a, b, suppr=f, env=env)
             same = r1.out == r0.out and r1.exit == r0.exit
+            if not same or k % 5 == 0:          # hook H3: the forest after the suppression pass, for DiffTreeTrace (cause of every SUPPRESSED mark)
+                te = difftree.tree_event(tool, a, b, [], env, idx, suppr=f, base=r1, extra={"comp": comp, "k": k, "supprFile": f})
+                if te is not None:
+                    evs.append(("tree",) + te)
             evs.append(("ok", {"e": "TypeSuppr", "case": idx, "comp": comp, "k": k, "stratum": stratum, "section": s, "change": change,
                                "env": {"paths": [a, b], "sonames": ["", ""]}, "hidden": not same, "same": same, "exit0": r0.exit, "exit1": r1.exit,
                                "ret": campaign.retof(r0, r1), "out0": r0.out[:300], "out1": r1.out[:300]}))
         return evs
 
     res = [x for xs in vf.pmap(one, [(i, cs, comp) for i, cs in enumerate(cases) for comp in comps]) for x in xs]
-    events = []
-    for kind, x in res:
-        if kind == "discard":
-            c.discard(x)
+    events, trees = [], []
+    for kind, x, *more in res:
+        if kind == "discard" or (kind == "tree" and x == "discard"):
+            c.discard(more[0] if more else x)
+        elif kind == "tree":
+            trees.append(more[0])
         else:
             events.append(x)
     S.tick(c, "replayed")
@@ -155,6 +161,10 @@ def main():
     case_of = lambda ev: dict(campaign.case_files(os.path.join(c.workdir, "p%d" % ev["case"], ev["comp"])),
                               **{"section.suppr": S.supprfile.render(ev["section"])})
     S.validate(c, events, case_of)
+    tree_case = lambda ev: dict(campaign.case_files(os.path.join(c.workdir, "p%d" % ev["case"], ev["comp"])), **{"section.suppr": open(ev["supprFile"]).read()})
+    vf.pmap(lambda i: c.validate("DiffTreeTrace.tla", "DiffTreeTrace.cfg", trees[i:i + 400], case_of=tree_case), range(0, len(trees), 400), jobs=6)
+    c.cov["diff_forests_validated"] = len(trees)
+    c.cov["diff_forests_with_suppressed_nodes"] = sum(1 for t in trees if any(n["sup"] for n in t["nodes"]))
     S.tick(c, "validated")
     live = [e for e in events if not e.get("_skipped")]
     c.cov["evaluations"] = len(live)
